@@ -26,7 +26,17 @@ func loadKnown() {
 // which the driver fills from known_findings.json; never written at run time).
 func IsKnown(key string) bool {
 	knownOnce.Do(loadKnown)
-	return knownSet[key]
+	if knownSet[key] {
+		return true
+	}
+	// a listed key ending in '*' matches by prefix (used where the root-cause
+	// marker is in the prefix and the suffix only names the state it surfaced in)
+	for k := range knownSet {
+		if strings.HasSuffix(k, "*") && strings.HasPrefix(key, strings.TrimSuffix(k, "*")) {
+			return true
+		}
+	}
+	return false
 }
 
 // Fataler is the part of testing.T / rapid.T we need.
